@@ -1603,6 +1603,19 @@ class Entity(Instance):
             else:
                 raise AssertionError("invalid direction")
 
+            # port names are part of the interface and cannot be changed,
+            # the name used in the architecture body must match the declaration
+            # (direct lookup, output ports are aliased to their buffer signal
+            # inside of the architecture)
+            decl_scope = self._scope
+            while port not in decl_scope._declarations:
+                decl_scope = decl_scope._parent
+                assert decl_scope is not None, f"port {name} not declared"
+            scope_name = decl_scope._declarations[port].name
+            assert (
+                scope_name == name
+            ), f"invalid port name '{name}': not a valid VHDL identifier, reserved or colliding with another name (the architecture would refer to it as '{scope_name}')"
+
             ret.append(f"{name} : {dir_str} {self._scope.format_type(obj)};")
 
         if len(ret) != 0:
